@@ -229,6 +229,9 @@ func runHist(t *testing.T, id, tier string, scens []*hist.Scenario) int {
 	ruleHits := map[string]int{}
 	foreign := map[string]int{}
 	for _, sc := range scens {
+		if only := os.Getenv("VERIF_ONLY"); only != "" && only != sc.ID {
+			continue // debugging aid: one scenario
+		}
 		if s := os.Getenv("VERIF_DEPTH"); s != "" {
 			sc.Depth, _ = strconv.Atoi(s)
 		}
